@@ -71,7 +71,15 @@ def streams(ctx):
                 if ch < 0:
                     continue
                 f = [eco, text, str(li), str(ch), "-", str(len(vs))] + vs + ["0"]
-                dcases.append({"req": vlib.line("ca.doc", *f), "tag": tag + (li, ch), "declared": declared, "vs": vs, "eco": eco})
+                # the declared dependency whose spec text the cursor is on (ASCII lines: characters = bytes = UTF-16 units)
+                on = None
+                for d in declared:
+                    k = ln.find(d[1]) if (d[1] and d[0] in ln) else -1
+                    while k >= 0:
+                        if k <= ch < k + len(d[1]) and (k == 0 or ln[k - 1] in "\"' \t@:=") :
+                            on = d
+                        k = ln.find(d[1], k + 1)
+                dcases.append({"req": vlib.line("ca.doc", *f), "tag": tag + (li, ch), "declared": declared, "vs": vs, "eco": eco, "on": on})
     nd = 12 if tier == "quick" else 300
     for _ in range(nd):
         L = render.lay(rng, nonascii=False, crlf=rng.chance(1, 5), quote=rng.choice(['"', "'", ""]))
@@ -79,8 +87,10 @@ def streams(ctx):
         specs = [rng.choice(CURS[:9] + CURS[16:19]) for _ in range(3)]
         # package.json
         deps = [("dependencies", "lodash", specs[0], ("lodash", specs[0], None)), ("devDependencies", "@scope/pkg", specs[1], ("@scope/pkg", specs[1], None)),
-                ("dependencies", "local", "workspace:*", None)]
+                ("dependencies", "local", "workspace:*", None), ("dependencies", "chalk", specs[2], ("chalk", specs[2], None))]
         t, d = render.package_json(deps, L); add_doc("npm", t, d, vs, ("npm", tuple(specs[:2])))
+        if _ % 3 == 0:       # several dependencies on ONE line
+            t, d = render.package_json(deps, dict(L, compact=True)); add_doc("npm", t, d, vs, ("npm-compact", tuple(specs)))
         # Cargo.toml
         cspecs = [s for s in specs if " " not in s and "||" not in s][:2] or ["1.0.0"]
         deps = [("dependencies", "serde", "simple", cspecs[0], ("serde", cspecs[0], None)),
@@ -136,6 +146,13 @@ def streams(ctx):
             idx = parts[1]
             acts = [a for a in parts[2:] if a]
             if idx == "-":
+                # the cursor is on a declared dependency's spec: if a bump is due, finding nothing is a failure
+                on = c.get("on")
+                if on is not None and known_class(c, on[1]) is None:
+                    for label in ("patch", "minor", "major"):
+                        der.append({"req": vlib.line("bump.due", label, on[1], *c["vs"]), "index": i, "history": [c["req"]],
+                                    "check": (lambda out, label=label, on=on: None if out == "F" else ("violation",
+                                        f"the cursor is on the spec {on[1]!r} of {on[0]} and a newer {label} version is cached, but no dependency was found at the cursor"))})
                 continue
             cur_hex = plist[int(idx)][1]
             cur = vlib.unhx(cur_hex)
